@@ -330,6 +330,11 @@ ReadKV(kv, cs, ls) ==
                  ELSE IF IsChoices(kv)
                  THEN [k \in 1..Len(kv.list) |-> [kv.list[k] EXCEPT !.n = Text(FALSE, NlToSpace(@)), !.v = Text(cs, @), !.tags = NoTags(cs, @)]]
                  ELSE @]
+\* The same reading without the writer's canonical forms (a boolean's missing default becoming
+\* "0", yes/no becoming 1/0, a spawnflags caption becoming the key name): coming back unchanged
+\* is just as good - which of the two happens is the writer's choice, not the property's.
+ReadKVAlt(kv, cs, ls) ==
+    [ReadKV(kv, cs, ls) EXCEPT !.disp = Text(cs, kv.disp), !.def = Text(cs, kv.def), !.desc = Text(cs, kv.desc)]
 ReadIO(io, cs) == [io EXCEPT !.tags = NoTags(cs, @), !.type = IoDecay(io), !.desc = Text(cs, @)]
 
 \* a definition read twice under one (key, tags) replaces the earlier one but keeps its place
@@ -385,6 +390,9 @@ PlainSafe(ent) == \A t \in TextsOf(ent) : "\\" \notin Chars(t)
 \* only definitions without them re-export to the same text
 Canonical(ent) == \A k \in 1..Len(ent.kvs) : IsBool(ent.kvs[k]) => ent.kvs[k].def \notin {"yes", "no"}
 ReExportable(ent, cs) == Canonical(ent) /\ (cs \/ (PlainRepresentable(ent) /\ PlainSafe(ent)))
+ExportParseAlt(ent, cs, ls) ==
+    LET sorted == SortedKvs(ent) IN
+    [ExportParse(ent, cs, ls) EXCEPT !.kvs = Normal([k \in 1..Len(sorted) |-> ReadKVAlt(sorted[k], cs, ls)])]
 \* with custom syntax the round trip is the identity up to these canonical forms
 Canon(ent) == ExportParse(ent, TRUE, TRUE)
 
